@@ -1,6 +1,6 @@
 \* P1: sanity theorems about the oracle on every word of <= 2 units over the
-\* whole alphabet (<= 3 over a small core) in the rich trees and every
-\* one-node tree.  A failure is a defect of the specification (tool error).
+\* whole alphabet in the rich trees.  A failure is a defect of the
+\* specification (tool error).
 INIT Init
 NEXT Next
 VIEW View
@@ -8,7 +8,7 @@ CONSTANTS
   MaxLen = 2
   FullLen = 2
   Core = {}
-  Families = {"rich", "one"}
+  Families = {"rich"}
   NRand = 0
   RandSize = 0
 INVARIANT TreesOK
